@@ -2,7 +2,7 @@
    sm2_z256_point_mul_generator at k = n - 70 (DESIGN section 5, defect 1). *)
 From Coq Require Import ZArith List Bool Lia.
 From Bignums Require Import BigZ.
-From GmVerif Require Import Ec.Num Ec.CurveSpec Ec.Z256 Ec.Mont Ec.Jacobian Ec.Booth Ec.ScalarMul.
+From GmVerif Require Import Ec.Num Ec.CurveSpec Ec.Z256 Ec.Mont Ec.Jacobian Ec.Booth Ec.BoothProofs Ec.ScalarMul.
 Import ListNotations.
 Local Open Scope Z_scope.
 
@@ -68,3 +68,4 @@ Example mul_generator_pins :
                     | _ => false end)
           [sm2_n - 71; sm2_n - 70; sm2_n - 69; sm2_n; sm2_n - 1; 1; 0; 2^256 - 1] = true.
 Proof. vm_compute. reflexivity. Qed.
+
